@@ -63,6 +63,11 @@ def _direct_spec(r, kinds):
         spec["dim"] = r.choice([1, 2, 3])
     if kind == "chain":
         spec["items"] = r.choice(CHAINS)
+    if kind == "container":
+        spec["variant"] = r.choice(["concat", "stack", "partial", "reshape", "embed", "additive"])
+        spec["dim"] = r.choice([2, 3])
+        if spec["variant"] in ("embed", "additive"):
+            spec["cond_dim"] = {"embed": 3, "additive": 2}[spec["variant"]]
     if kind in ("affine", "scale", "triaffine", "vspline", "chain") and r.random() < 0.3:
         spec["base"] = r.choice(["normal", "studentt"])
     return spec
@@ -188,9 +193,9 @@ def _bucket(prop, tier, seed, idx):
     if prop == "C12":
         u = r.random()
         if u < 0.45:
-            spec = _flow_spec(r)
+            spec = _flow_spec(r, transformers=("affine", "spline", "affine_frozen_loc", "spline_frozen_derivs"))
         elif u < 0.8:
-            spec = _direct_spec(r, ["affine", "scale", "triaffine", "vspline", "planar", "chain", "scan_vspline"])
+            spec = _direct_spec(r, ["affine", "scale", "triaffine", "vspline", "planar", "chain", "scan_vspline", "container", "container"])
         else:
             spec = _named_spec(r, 1e-2, 1e2)
         freeze = [{"node": r.randrange(10**6), "mode": r.choice(["NT", "fn"])} for _ in range(r.choice([0, 1, 1, 2, 3]))]
@@ -201,7 +206,7 @@ def _bucket(prop, tier, seed, idx):
         if u < 0.3:
             spec = _flow_spec(r)
         elif u < 0.6:
-            spec = _direct_spec(r, ["affine", "scale", "triaffine", "vspline", "planar", "chain", "scan_vspline"])
+            spec = _direct_spec(r, ["affine", "scale", "triaffine", "vspline", "planar", "chain", "scan_vspline", "container"])
         else:
             wide = r.random() < 0.5
             spec = _named_spec(r, 1e-6 if wide else 1e-2, 1e6 if wide else 1e2)
